@@ -360,6 +360,22 @@ func C06(r *ev.Report) {
 		}
 	})
 
+	// Invert on the division-step steered members (alpha/divstep.go), in both readings: the member as the canonical
+	// value and the member as the stored (Montgomery) limbs - an inversion by division steps may run on either.
+	steered := c06Steered(ref.N, thorough)
+	r.Bound("divstep_steered_members", len(steered))
+	r.Rule("Invert also on the division-step steered members (operands whose 2-adic digits follow every periodic parity word up to the period bound for 256 division steps), as canonical value and as stored limbs")
+
+	r.ParFor(len(steered), func(_, i int) {
+		r.Transitions.Add(1)
+		r.Evals.Add(1)
+		r.Distinct.Add(1)
+
+		if key, detail := c06UnaryCase("Invert", steered[i]); key != "" {
+			r.Violation(key, detail, Case{"op": "Invert", "a": hx(steered[i].V)})
+		}
+	})
+
 	// Pow
 	powVals := alpha.Thin(vals, 300)
 	if thorough {
@@ -416,6 +432,24 @@ func C06(r *ev.Report) {
 func valOf(v *big.Int) alpha.Val {
 	v = ref.Mod(v, ref.N)
 	return alpha.Val{V: v, Raw: ref.Mont(v, ref.N)}
+}
+
+// c06Steered returns the division-step steered members for m as values, in both readings.
+func c06Steered(m *big.Int, thorough bool) []alpha.Val {
+	period := 8
+	if thorough {
+		period = 12
+	}
+
+	xs := alpha.DivstepSteered(m, period)
+	out := make([]alpha.Val, 0, 2*len(xs))
+
+	for _, x := range xs {
+		out = append(out, alpha.Val{V: x, Raw: ref.Mont(x, m)})
+		out = append(out, alpha.Val{V: ref.Unmont(ref.Limbs(x), m), Raw: ref.Limbs(x)})
+	}
+
+	return out
 }
 
 // c06Light selects the lighter pair product used when the scalar layer is checked as a seam under another property.
